@@ -152,5 +152,11 @@ func Registry() []*Spec {
 		Quick: map[string]int{"K1": 5, "K2": 3, "EXP": 2, "CTX": 2, "FE": 3}, Thorough: map[string]int{"K1": 7, "K2": 7, "EXP": 5},
 		Covers: []string{"int64", "float64"}, UnitDepth: 6,
 		Note: "number literals -?I(.F)?(e..)? with every digit symbolic, digit counts I in {1,2,17..21}, F in {0,1,2,17..20}, 5 exponent forms, standalone / array element / object value, through oj.Parse, ParseReader(1-byte reads), Tokenizer (Parse and Load 1-byte), sen.Parse: int64 results are the literal exactly (strconv.FormatInt contract stub inverted to the input digits), float64 results are strconv.ParseFloat of a text with the same decimal denotation (nearest-float rounding trusted to strconv), json.Number text has the same denotation"})
+	// ---- C08: sequential ownership lemma (partial)
+	add(Spec{Property: "C08", Name: "VerifC08_Ownership", Pkg: "asm",
+		Quick: map[string]int{}, Thorough: map[string]int{},
+		Covers: []string{"done"}, UnitDepth: 3,
+		AllowUnsupported: []string{"(reflect.Value).", "reflect."},
+		Note: "SEQUENTIAL sufficient condition only (no interleavings are explored): two consecutive calls of 12 package-level / shared-expression APIs on private symbolic data, the second call reusing the pooled instance of the first (sync.Pool stub: LIFO): the first result is not altered, the results share no storage (heap identity in the executor, pointer identity natively), Generify/Decompose results share nothing with their input, a shared jp.Expr is unchanged"})
 	return r
 }
